@@ -8,6 +8,7 @@ import os
 import socket
 import struct
 import threading
+import time
 
 
 def _recv_request(conn, buf):
@@ -273,8 +274,13 @@ class ScriptedPeer(object):
                 elif item == "B104":
                     send(b"104 Odd", b"", length=False)
                 elif item == "TR":
+                    # (the announced length is that of the complete reply - the same as any earlier reply of this peer -
+                    # every other time, and larger than anything sent before otherwise)
                     full = reply_json(token)
-                    conn.sendall(b"HTTP/1.1 200 OK\r\nContent-Type: application/json-rpc\r\nContent-Length: " + str(len(full) + 50).encode() + b"\r\n\r\n" + full[:5])
+                    with self.lock:
+                        self.ntr = getattr(self, "ntr", 0) + 1
+                        pad = 0 if self.ntr % 2 else 50
+                    conn.sendall(b"HTTP/1.1 200 OK\r\nContent-Type: application/json-rpc\r\nContent-Length: " + str(len(full) + pad).encode() + b"\r\n\r\n" + full[:5])
                     return
                 elif item == "TRC":
                     # chunked answer (larger than the client's read size) cut in the middle of its second chunk: the
@@ -298,6 +304,10 @@ class ScriptedPeer(object):
                     send(b"200 OK", json.dumps(d, ensure_ascii=False).encode("utf-8"))
                 elif item == "E0":
                     send(b"200 OK", b"")
+                elif item == "SLOW":
+                    # a healthy answer that takes its time (the caller may give up meanwhile)
+                    time.sleep(0.4)
+                    send(b"200 OK", reply_json(token))
                 elif item == "NJ":
                     send(b"200 OK", b"<html>not json</html>")
                 elif item == "S202":
